@@ -6,6 +6,7 @@ mod faultinj;
 mod mtsmoke;
 mod ops;
 mod planx;
+mod rulecheck;
 mod sqlrun;
 mod util;
 
@@ -17,6 +18,7 @@ fn main() {
         "sql" => sqlrun::main(&args[2..]),
         "e4" => e4::main(&args[2..]),
         "crash" => crash::main(&args[2..]),
+        "rules" => rulecheck::main(&args[2..]),
         "col" => colenc::main(&args[2..]),
         "ops" => ops::main(&args[2..]),
         "plan" => planx::main(&args[2..]),
